@@ -98,6 +98,10 @@ func RunParent(chk *Check, tier string) int {
 	seed := envSeed()
 	root := VerifRoot()
 	evDir := filepath.Join(root, "evidence")
+	if d := os.Getenv("VERIF_EVDIR"); d != "" {
+		// mutation trials write their evidence/replay files elsewhere so that the committed evidence stays that of /repo
+		evDir = d
+	}
 	os.MkdirAll(filepath.Join(evDir, "replay"), 0755)
 	if old, _ := filepath.Glob(filepath.Join(evDir, "replay", chk.ID+"-*.json")); len(old) > 0 {
 		for _, f := range old {
